@@ -177,7 +177,8 @@ def gen_history(r, N, F, perm=None):
         idx = order[i : i + k]
         i += k
         if k == 1 and r.random() < 0.6:
-            calls.append(dict(idx=idx, other=None, pos=0, axis=-1))
+            # a lone vector: its only axis is both -1 and 0
+            calls.append(dict(idx=idx, other=None, pos=0, axis=r.choice([-1, -1, 0])))
             continue
         rank = r.choice([2, 2, 3, 4])
         other = factorizations(r, k, rank - 1)
@@ -190,7 +191,7 @@ def gen_history(r, N, F, perm=None):
 def gen_probe(r, F, mode, dtype, allow_vec=True):
     """a probe array spec over fresh data of dimension F"""
     if allow_vec and r.random() < 0.3:
-        k, other, pos, axis = 1, None, 0, -1
+        k, other, pos, axis = 1, None, 0, r.choice([-1, -1, 0])
     else:
         rank = r.choice([2, 2, 3, 4])
         k = r.choice([1, 2, 3, 4, 6, 8])
@@ -711,6 +712,12 @@ def corpus():
                    h1=[dict(idx=[0, 1, 2, 3, 4, 5], other=[2, 3], pos=1, axis=1)],
                    h2=[dict(idx=[i], other=None, pos=0, axis=-1) for i in (5, 3, 1, 0, 2, 4)], P=[[2.0, 2.0, 2.0]],
                    probe=dict(idx=[0], other=None, pos=0, axis=-1)))
+    # lone vectors given with their axis spelled 0 (a 1-D array's only axis), on a fresh instance and after a tensor
+    X = [[1.0, -2.0, 4.0], [0.5, 3.0, 4.0], [2.0, 2.0, -1.0], [6.0, 0.0, 0.0]]
+    cs.append(dict(kind="global", mode="float", dtype="f64", F=3, nv=True, ip=False, X=X,
+                   h1=[dict(idx=[0], other=None, pos=0, axis=0), dict(idx=[1, 2], other=[2], pos=1, axis=1), dict(idx=[3], other=None, pos=0, axis=0)],
+                   h2=[dict(idx=[3, 2, 1, 0], other=[4], pos=1, axis=-1)], P=[[1.0, 1.0, 1.0]],
+                   probe=dict(idx=[0], other=None, pos=0, axis=0)))
     cs.append(dict(kind="local", mode="int", dtype="f64", F=2, nv=True, ip=True, X=[], h1=[], h2=[],
                    P=[[1.0, 5.0], [3.0, 5.0], [8.0, 5.0], [0.0, 5.0]], probe=dict(idx=[0, 1, 2, 3], other=[2, 2], pos=2, axis=-1)))
     return cs
